@@ -83,9 +83,9 @@ impl FeelYearsAndMonthsDuration {
 impl std::fmt::Display for FeelYearsAndMonthsDuration {
   fn fmt(&self, f: &mut std::fmt::Formatter<'_>) -> std::fmt::Result {
     let sign = if self.0 < 0 { "-" } else { "" };
-    let mut month = self.0.abs();
-    let year = month / MONTHS_IN_YEAR;
-    month -= year * MONTHS_IN_YEAR;
+    let mut month = self.0.unsigned_abs();
+    let year = month / MONTHS_IN_YEAR as u64;
+    month -= year * MONTHS_IN_YEAR as u64;
     match (year > 0, month > 0) {
       (false, false) => write!(f, "P0M"),
       (false, true) => write!(f, "{}P{}M", sign, month),
@@ -100,25 +100,22 @@ impl TryFrom<&str> for FeelYearsAndMonthsDuration {
   /// Converts a text into [FeelYearsAndMonthsDuration].
   fn try_from(value: &str) -> Result<Self, Self::Error> {
     if let Some(captures) = RE_YEARS_AND_MONTHS.captures(value) {
+      // the total number of months is `None` when it is not representable
       let mut is_valid = false;
-      let mut total_months = 0_i64;
+      let mut total_months = Some(0_i64);
       if let Some(years_match) = captures.name("years") {
-        if let Ok(years) = years_match.as_str().parse::<u64>() {
-          total_months += (years as i64) * MONTHS_IN_YEAR;
-          is_valid = true;
-        }
+        let years = years_match.as_str().parse::<i64>().ok();
+        total_months = years.and_then(|years| years.checked_mul(MONTHS_IN_YEAR));
+        is_valid = true;
       }
       if let Some(months_match) = captures.name("months") {
-        if let Ok(months) = months_match.as_str().parse::<u64>() {
-          total_months += months as i64;
-          is_valid = true;
-        }
+        let months = months_match.as_str().parse::<i64>().ok();
+        total_months = total_months.zip(months).and_then(|(total, months)| total.checked_add(months));
+        is_valid = true;
       }
-      if captures.name("sign").is_some() {
-        total_months = -total_months;
-      }
-      if is_valid {
-        return Ok(FeelYearsAndMonthsDuration(total_months));
+      if let (true, Some(total_months)) = (is_valid, total_months) {
+        let sign = if captures.name("sign").is_some() { -1 } else { 1 };
+        return Ok(FeelYearsAndMonthsDuration(sign * total_months));
       }
     }
     Err(err_invalid_years_and_months_duration_literal(value))
